@@ -48,6 +48,7 @@ pub fn large_vol(geom_idx: usize, l: LargeCfg) -> VolCfg {
         large: Some(l),
         short_io: 0,
         populate: None,
+        stale_free: None,
     }
 }
 
